@@ -35,7 +35,7 @@ enum Act {
     SumWith { form: u8, pool: u8 },
 }
 
-const UNARY: [&str; 12] = ["neg V", "neg R", "neg F", "abs", "double", "half", "square", "normalized", "with_scale(+1)", "with_scale(+20)", "to_ref().to_owned()", "clone"];
+const UNARY: [&str; 14] = ["neg V", "neg R", "neg F", "abs", "double", "half", "square", "normalized", "with_scale(+1)", "with_scale(+20)", "to_ref().to_owned()", "clone", "with_scale(+10)", "with_scale(+19)"];
 const PRIM_TYPES: [&str; 3] = ["u8", "i64", "i128"];
 const PRIM_VALS: [i64; 5] = [0, 1, 2, 7, 10];
 
@@ -133,6 +133,8 @@ impl M {
                     "normalized" => acc.normalized(),
                     "with_scale(+1)" => acc.with_scale(acc.fractional_digit_count() + 1),
                     "with_scale(+20)" => acc.with_scale(acc.fractional_digit_count() + 20),
+                    "with_scale(+10)" => acc.with_scale(acc.fractional_digit_count() + 10),
+                    "with_scale(+19)" => acc.with_scale(acc.fractional_digit_count() + 19),
                     "to_ref().to_owned()" => acc.to_ref().to_owned(),
                     _ => acc.clone(),
                 });
@@ -376,6 +378,10 @@ fn pool(tier: Tier) -> Vec<Dec> {
 
 fn far_operands(tier: Tier) -> Vec<Dec> {
     let mut far_pool: Vec<Dec> = vec![Dec::new(0, 0), Dec::new(1, 0), Dec::new(-725, 2), Dec::new(0, 9441), Dec::new(1, 9441), Dec::new(1, -9439)];
+    // limb-boundary operands of the word-wise scaled comparison (W_k * (2^32 + 1), W_k = floor(2^64 / 10^k)) for the
+    // gaps k = 10 and 19; their twins arise through with_scale(+10) / with_scale(+19) and are compared with them
+    far_pool.push(Dec { n: (BigInt::from(1u64 << 32) + 1) * BigInt::from(1844674407u64), s: 0 });
+    far_pool.push(Dec::new(4294967297i64, 0));
     if tier.is_thorough() {
         far_pool.extend([Dec::new(125, 1), Dec::new(7, 4096), Dec::new(-3, 10233), Dec::new(0, -20000)]);
     }
@@ -439,7 +445,7 @@ fn main() {
     run.bound("actions_full_alphabet", full.len());
     run.bound("actions_core_alphabet", core.len());
     run.bound("prune", "results with more than 40 digits or |scale| > 700 are checked and observed but not expanded (counted)");
-    run.rule("explicit-state BFS over accumulator representations (int_val, scale): initial states = the operand pool; FULL alphabet = every decimal overload (30) x pool, every BigInt overload (36) x 6 integers, 32 primitive overloads x {u8,i64,i128} x 5 values, 12 unary/clone/re-scale operations, 3 sum forms x pool; CORE alphabet = one spelling per distinct implementation path; every transition runs the real overload on the accumulator rebuilt from the state pair and checks value, comparisons and hashes against the exact value; states merged exactly on the pair; non-trivial = distinct reachable representations beyond the initial ones");
+    run.rule("explicit-state BFS over accumulator representations (int_val, scale): initial states = the operand pool; FULL alphabet = every decimal overload (30) x pool, every BigInt overload (36) x 6 integers, 32 primitive overloads x {u8,i64,i128} x 5 values, 14 unary/clone/re-scale operations, 3 sum forms x pool; CORE alphabet = one spelling per distinct implementation path; every transition runs the real overload on the accumulator rebuilt from the state pair and checks value, comparisons and hashes against the exact value; states merged exactly on the pair; non-trivial = distinct reachable representations beyond the initial ones");
     run.assume("same representation => same futures (the pair is the complete state of a BigDecimal), so merging is sound and each state is expanded at its minimal depth, i.e. with the largest remaining budget");
 
     let r1 = bfs(&run, &m, "BFS full alphabet", &full, depth_full);
